@@ -13,6 +13,7 @@ use crate::platform::{
 };
 
 use bincode;
+use serde::de::Error as DeError;
 use serde::{Deserialize, Deserializer, Serialize, Serializer};
 use std::cell::RefCell;
 use std::cmp::min;
@@ -25,7 +26,7 @@ use std::ops::Deref;
 use std::time::Duration;
 
 thread_local! {
-    static OS_IPC_CHANNELS_FOR_DESERIALIZATION: RefCell<Vec<OsOpaqueIpcChannel>> =
+    static OS_IPC_CHANNELS_FOR_DESERIALIZATION: RefCell<Vec<Option<OsOpaqueIpcChannel>>> =
         RefCell::new(Vec::new())
 }
 thread_local! {
@@ -516,14 +517,7 @@ impl IpcReceiverSet {
                     os_ipc_shared_memory_regions,
                 ) => IpcSelectionResult::MessageReceived(
                     os_receiver_id,
-                    OpaqueIpcMessage {
-                        data,
-                        os_ipc_channels,
-                        os_ipc_shared_memory_regions: os_ipc_shared_memory_regions
-                            .into_iter()
-                            .map(Some)
-                            .collect(),
-                    },
+                    OpaqueIpcMessage::new(data, os_ipc_channels, os_ipc_shared_memory_regions),
                 ),
                 OsIpcSelectionResult::ChannelClosed(os_receiver_id) => {
                     IpcSelectionResult::ChannelClosed(os_receiver_id)
@@ -582,15 +576,16 @@ impl<'de> Deserialize<'de> for IpcSharedMemory {
         if index == usize::MAX {
             Ok(IpcSharedMemory::empty())
         } else {
-            let os_shared_memory = OS_IPC_SHARED_MEMORY_REGIONS_FOR_DESERIALIZATION.with(
-                |os_ipc_shared_memory_regions_for_deserialization| {
-                    // FIXME(pcwalton): This could panic if the data was corrupt and the index was out
-                    // of bounds. We should return an `Err` result instead.
-                    os_ipc_shared_memory_regions_for_deserialization.borrow_mut()[index]
-                        .take()
-                        .unwrap()
-                },
-            );
+            let os_shared_memory = OS_IPC_SHARED_MEMORY_REGIONS_FOR_DESERIALIZATION
+                .with(|os_ipc_shared_memory_regions_for_deserialization| {
+                    os_ipc_shared_memory_regions_for_deserialization
+                        .borrow_mut()
+                        .get_mut(index)
+                        .and_then(Option::take)
+                })
+                .ok_or_else(|| {
+                    D::Error::custom("shared memory region index out of range or already used")
+                })?;
             Ok(IpcSharedMemory {
                 os_shared_memory: Some(os_shared_memory),
             })
@@ -697,7 +692,7 @@ impl IpcSelectionResult {
 /// [to]: #method.to
 pub struct OpaqueIpcMessage {
     data: Vec<u8>,
-    os_ipc_channels: Vec<OsOpaqueIpcChannel>,
+    os_ipc_channels: Vec<Option<OsOpaqueIpcChannel>>,
     os_ipc_shared_memory_regions: Vec<Option<OsIpcSharedMemory>>,
 }
 
@@ -718,7 +713,7 @@ impl OpaqueIpcMessage {
     ) -> OpaqueIpcMessage {
         OpaqueIpcMessage {
             data,
-            os_ipc_channels,
+            os_ipc_channels: os_ipc_channels.into_iter().map(Some).collect(),
             os_ipc_shared_memory_regions: os_ipc_shared_memory_regions
                 .into_iter()
                 .map(Some)
@@ -887,12 +882,7 @@ where
 
     pub fn accept(self) -> Result<(IpcReceiver<T>, T), bincode::Error> {
         let (os_receiver, data, os_channels, os_shared_memory_regions) = self.os_server.accept()?;
-        let value = OpaqueIpcMessage {
-            data,
-            os_ipc_channels: os_channels,
-            os_ipc_shared_memory_regions: os_shared_memory_regions.into_iter().map(Some).collect(),
-        }
-        .to()?;
+        let value = OpaqueIpcMessage::new(data, os_channels, os_shared_memory_regions).to()?;
         Ok((
             IpcReceiver {
                 os_receiver,
@@ -1007,10 +997,19 @@ where
     D: Deserializer<'de>,
 {
     let index: usize = Deserialize::deserialize(deserializer)?;
+    let mut os_ipc_channel = take_os_ipc_channel_for_deserialization(index)
+        .ok_or_else(|| D::Error::custom("channel index out of range or already used"))?;
+    Ok(os_ipc_channel.to_sender())
+}
+
+/// Moves the channel with the given index out of the per-thread list of the message being
+/// deserialized. Yields `None` if the index is out of range or was already used.
+fn take_os_ipc_channel_for_deserialization(index: usize) -> Option<OsOpaqueIpcChannel> {
     OS_IPC_CHANNELS_FOR_DESERIALIZATION.with(|os_ipc_channels_for_deserialization| {
-        // FIXME(pcwalton): This could panic if the data was corrupt and the index was out of
-        // bounds. We should return an `Err` result instead.
-        Ok(os_ipc_channels_for_deserialization.borrow_mut()[index].to_sender())
+        os_ipc_channels_for_deserialization
+            .borrow_mut()
+            .get_mut(index)
+            .and_then(Option::take)
     })
 }
 
@@ -1036,9 +1035,8 @@ where
 {
     let index: usize = Deserialize::deserialize(deserializer)?;
 
-    OS_IPC_CHANNELS_FOR_DESERIALIZATION.with(|os_ipc_channels_for_deserialization| {
-        // FIXME(pcwalton): This could panic if the data was corrupt and the index was out
-        // of bounds. We should return an `Err` result instead.
-        Ok(os_ipc_channels_for_deserialization.borrow_mut()[index].to_receiver())
-    })
+    #[allow(unused_mut)]
+    let mut os_ipc_channel = take_os_ipc_channel_for_deserialization(index)
+        .ok_or_else(|| D::Error::custom("channel index out of range or already used"))?;
+    Ok(os_ipc_channel.to_receiver())
 }
